@@ -9,6 +9,9 @@
 (* with MAX_CONCURRENT_STREAMS 0; raw server granting no window; silent    *)
 (* raw server; raw server that stalls in the middle of a response message  *)
 (* ("recvmid": response HEADERS + 5-byte prefix + part of the payload);    *)
+(* raw server failing every attempt with trailers-only UNAVAILABLE while   *)
+(* the service config has a retry policy with a backoff longer than every  *)
+(* event instant ("backoff": the RPC waits in the retry backoff sleep);    *)
 (* handler of a real server waiting for its context).  kind is unary,      *)
 (* bidi streaming ("stream") or client streaming ("cstream"); tracing is   *)
 (* the configuration grpc.EnableTracing (write-quota point only).  An      *)
@@ -42,9 +45,9 @@ VARIABLES
 scen == <<point, kind, delay, hasDl, dl, hasCancel, cancelAt, tracing>>
 rvars == <<scen, now, phase, hdrAt, ret, retAt, sent, sentAt, hasWire, wire, hStarted, hDone, hDoneAt>>
 
-Order == [resolver |-> 1, picker |-> 2, quota |-> 3, write |-> 4, recv |-> 5, recvmid |-> 5, handler |-> 5, none |-> 0]
+Order == [resolver |-> 1, picker |-> 2, quota |-> 3, write |-> 4, recv |-> 5, recvmid |-> 5, backoff |-> 5, handler |-> 5, none |-> 0]
 \* the phase in which the RPC sits at its blocking point
-PointPhase == IF point = "recvmid" THEN "recv" ELSE point
+PointPhase == IF point \in {"recvmid", "backoff"} THEN "recv" ELSE point
 
 \* the instant and the code of the terminating event
 DlFirst == hasDl /\ (~hasCancel \/ dl < cancelAt)
@@ -80,6 +83,7 @@ ScenOK ==
   /\ EvAt # TRel
   /\ point = "write" => kind = "stream"
   /\ kind = "cstream" => point \in {"recv", "recvmid", "handler"}
+  /\ point = "backoff" => delay \in {"none", "pick"}
   /\ tracing => point = "write" /\ delay = "none"
   /\ delay = "pick" => Order[point] > 2
   /\ delay = "quota" => point \in {"write", "recv", "recvmid"}
